@@ -49,6 +49,7 @@ type steeredReplay struct {
 }
 
 func registerSteered(sp steeredProfile) {
+	SteeredOracles[sp.prop] = sp.oracles
 	ck := &run.Check{
 		Prop:        sp.prop,
 		Level:       "exploration",
@@ -157,7 +158,7 @@ func init() {
 		gen: func(r *eng.Rng, idx int, th bool) *eng.Program {
 			cfg := eng.GenConfig(r, pickBacking(r, "none", "store", "store", "store", "store", "custom"), false)
 			gp := eng.GenParams{MinBatches: 4, MaxBatches: 14, NKeys: 6 + r.Intn(8), Park: true, Handles: true, StoreHandles: true,
-				Children: r.Chance(1, 3), TailClose: r.Chance(2, 3), Reopen: r.Chance(1, 4), Idle: true}
+				Children: cfg.Backing != "custom" && r.Chance(1, 3), TailClose: r.Chance(2, 3), Reopen: r.Chance(1, 4), Idle: true}
 			return eng.GenProgram(r, "C02", cfg, gp)
 		},
 		units: func(p *eng.Program, res *eng.Result, add func(string)) {
@@ -330,3 +331,41 @@ func init() {
 		minUnits: 10,
 	})
 }
+
+// ShrinkSteered delta-debugs a steered replay body: it removes steps as
+// long as a violation of the same oracle and class is still reported.
+func ShrinkSteered(prop string, body json.RawMessage, oracle, class string, scratch string, o eng.Oracles) json.RawMessage {
+	var b steeredReplay
+	if err := json.Unmarshal(body, &b); err != nil || b.Program == nil {
+		return body
+	}
+	fails := func(steps []eng.Step) bool {
+		p := *b.Program
+		p.Steps = steps
+		p.Prop = prop
+		res, _ := runProgram(&p, o, scratch, 0, b.FailPlan)
+		for _, v := range res.Violations {
+			if v.Oracle == oracle && v.Class == class {
+				return true
+			}
+		}
+		return false
+	}
+	steps := b.Program.Steps
+	for chunk := len(steps) / 2; chunk >= 1; chunk /= 2 {
+		for i := 0; i+chunk <= len(steps); {
+			cand := append(append([]eng.Step{}, steps[:i]...), steps[i+chunk:]...)
+			if fails(cand) {
+				steps = cand
+			} else {
+				i += chunk
+			}
+		}
+	}
+	b.Program.Steps = steps
+	out, _ := json.Marshal(b)
+	return out
+}
+
+// SteeredOracles returns the oracle set of a steered property.
+var SteeredOracles = map[string]eng.Oracles{}
